@@ -58,6 +58,11 @@ type c13Net struct {
 	reqs    []c13Req
 	blamed  map[p2p.ID]string
 
+	crashed    string
+	midRestart string
+	midCause   string
+	early      string
+
 	finished bool
 	steps    int
 	diags    []string
@@ -89,9 +94,21 @@ func (n *c13Net) close() {
 	n.node.Close()
 }
 
+func c13Safely(f func()) (p string) {
+	defer func() {
+		if x := recover(); x != nil {
+			p = fmt.Sprint(x)
+		}
+	}()
+	f()
+	return ""
+}
+
 func (n *c13Net) handle(msg bcReactorMessage) {
 	n.steps++
-	_ = n.bcR.fsm.Handle(&msg)
+	if p := c13Safely(func() { _ = n.bcR.fsm.Handle(&msg) }); p != "" {
+		n.crashed, n.finished = "fsm.Handle: "+p, true
+	}
 }
 
 // pump performs the channel cases of poolRoutine until all three channels are empty.
@@ -196,9 +213,19 @@ func c13Run(chain *c13kit.Chain, c c13Case) (res c13Result) {
 		progress = n.pump() || progress
 		// processBlocksRoutine's doProcessBlockCh case
 		for i := 0; i < 16 && !n.finished; i++ {
-			err := n.bcR.processBlock()
+			var err error
+			if p := c13Safely(func() { err = n.bcR.processBlock() }); p != "" {
+				n.crashed, n.finished = "processBlock: "+p, true
+				break
+			}
 			if err == errMissingBlock {
 				break
+			}
+			if err == nil && n.midRestart == "" {
+				// crash point: the node is stopped right here and boots again on these stores
+				if p, h, cause := c13hand.Restart(n.chain, n.node); p != "" {
+					n.midRestart, n.midCause = fmt.Sprintf("restart with state height %d panics: %.200s", h, p), cause
+				}
 			}
 			n.steps++
 			n.handle(bcReactorMessage{event: processedBlockEv, data: bReactorEventData{err: err}})
@@ -212,6 +239,11 @@ func c13Run(chain *c13kit.Chain, c c13Case) (res c13Result) {
 		if progress {
 			idle = 0
 			continue
+		}
+		for _, p := range n.peers {
+			if why, ok := n.blamed[p.PID]; ok && p.IsRunning() && n.early == "" {
+				n.early = "blockchain/v1:peer-not-stopped-after:blamed|" + fmt.Sprintf("the FSM reported peer %d for %q and the peer is still connected when the node runs out of events and has to wait for timeouts", p.K, why)
+			}
 		}
 		idle++
 		switch idle {
@@ -242,6 +274,15 @@ func c13Run(chain *c13kit.Chain, c c13Case) (res c13Result) {
 		res.Key, res.What, res.Outcome = key, what, "violation"
 		return
 	}
+	if n.crashed != "" {
+		res.Key, res.What, res.Outcome = "blockchain/v1:node-panics-during-sync", n.crashed, "violation"
+		return
+	}
+	if n.early != "" {
+		kv := strings.SplitN(n.early, "|", 2)
+		res.Key, res.What, res.Outcome = kv[0], kv[1], "violation"
+		return
+	}
 	if hr.Called {
 		tipLies := []string{}
 		for _, a := range n.given {
@@ -253,6 +294,10 @@ func c13Run(chain *c13kit.Chain, c c13Case) (res c13Result) {
 			res.Key, res.What, res.Outcome = key, what, "violation"
 			return
 		}
+	}
+	if n.midRestart != "" {
+		res.Key, res.What, res.Outcome = "blockchain/v1:restart-during-sync-panics:"+n.midCause, n.midRestart, "violation"
+		return
 	}
 	st, err := n.node.StateStore.Load()
 	if err != nil {
